@@ -379,6 +379,10 @@ type recArgs struct {
 	mu      sync.Mutex
 	reports []rep
 	done    int
+	// a receiver that stays busy until the watcher's context ends: the report is
+	// in flight when the cancellation arrives (seeded C17-r)
+	busy     atomic.Bool
+	inflight atomic.Int64
 }
 
 func valueOf(v reflect.Value) int {
@@ -398,7 +402,12 @@ func valueOf(v reflect.Value) int {
 	return int(f.Int())
 }
 
-func (r *recArgs) ReportNewValue(_ context.Context, val reflect.Value) error {
+func (r *recArgs) ReportNewValue(ctx context.Context, val reflect.Value) error {
+	if r.busy.Load() {
+		r.inflight.Add(1)
+		<-ctx.Done()
+		return ctx.Err()
+	}
 	r.mu.Lock()
 	r.reports = append(r.reports, rep{val: valueOf(val)})
 	r.mu.Unlock()
@@ -1247,6 +1256,18 @@ func runQuiescentOnce(in input) (driver.Result, bool) {
 		ok = record(opTerm(o), o, transient)
 		kinds[o.K] = true
 		res.Tags = append(res.Tags, "q-op-"+o.K)
+	}
+	if ok && r.args != nil && len(in.Ops)%2 == 0 {
+		// cancellation while a report is in flight: the receiver is busy until the context
+		// ends and then refuses the value; the loop has to return all the same
+		r.args.busy.Store(true)
+		w.apply(op{K: "rewrite", C: (w.cur + 1) % 3}, func() {})
+		for dl := time.Now().Add(2 * time.Second); r.args.inflight.Load() == 0 && time.Now().Before(dl); {
+			time.Sleep(time.Millisecond)
+		}
+		if r.args.inflight.Load() > 0 {
+			res.Tags = append(res.Tags, "q-cancel-in-flight")
+		}
 	}
 	released, why := r.teardown()
 	if !released {
